@@ -1,10 +1,10 @@
 SPECIFICATION SSpec
 CONSTANTS
-  NA = 3
-  Rounds = 1
+  NA = 2
+  Rounds = 2
   PerRound = 1
   NotifyMode = "token"
-  TempApps = {}
+  TempApps = {2}
   ExitMode = "recheck"
 INVARIANTS FIFO DrainSound NoHang LockOK
 CHECK_DEADLOCK FALSE
